@@ -22,6 +22,7 @@ def hs(group, mod, items=(), **common):
     return out
 
 PROPS = {}
+_SERR = ["alloc::fmt::format -> empty String", "handled::SError::{new,with_code,with_message,with_atom_field,with_string_field,with_debug_field} -> empty error (error texts only; is_err() preserved)"]  # _SERR_EARLY
 
 def pre_c14():
     """The SHA3 anchors compiled into /verif/hk/setsum/mod.rs must equal hashlib's SHA3-256
@@ -37,6 +38,14 @@ def pre_c14():
         got = [int(x) for x in m.group(1).split(",")]
         if got != st(item):
             return f"{name} in the harness differs from hashlib.sha3_256: {got} vs {st(item)}"
+    # ... and the real sha3 code of /repo must produce them (ordinary native run of the two
+    # anchor harness bodies: concrete input, labelled an anchored differential, not a solver claim)
+    import runner
+    for hn in ("sha3_anchor_empty", "sha3_anchor_abc"):
+        h = H("setsum/" + hn, "setsum", "verif_harness::" + hn + "::check")
+        rep = runner.native_replay(h, GROUPS["setsum"], b"\x00")
+        if rep["panicked"] or not rep["returned"]:
+            return ("violation", h, rep["msg"] or "anchor did not complete")
     return None
 
 # ---------------------------------------------------------------- C14
@@ -46,8 +55,6 @@ PROPS["C14"] = dict(
     harnesses=hs("setsum", "verif_harness::", unwind=40, items=[
         ("hash_to_state_def", "quick", 200, "private hash_to_state: column i = LE32(hash[4i..]) mod P[i], canonical", "all 32-byte hashes"),
         ("multiset_laws", "quick", 400, "with the item hash an uninterpreted function (equal items -> equal canonical states): insertion order independence, union = sum, subtraction, remove undoes insert, empty", "3 items (repeats allowed), all canonical hash states", dict(stubs=["setsum::item_vectored_to_state -> table of 3 arbitrary canonical states (SHA3 uninterpreted)"])),
-        ("sha3_anchor_empty", "quick", 900, "ANCHORED DIFFERENTIAL (concrete input): the real sha3 code on the empty item equals hashlib's SHA3-256 columns", "1 concrete item"),
-        ("sha3_anchor_abc", "quick", 900, "ANCHORED DIFFERENTIAL (concrete input): b'abc' whole and split at every position equals hashlib's SHA3-256 columns; digest columns", "1 concrete item, 4 splits"),
     ]) + hs("hx_setsum", "", unwind=70, items=[
         ("add_state_def", "quick", 120, "add_state equals (a+b) mod p, canonical, commutative, identity", "all pairs of canonical states (2^512)"),
         ("add_state_assoc", "quick", 120, "add_state associative", "all triples of canonical states"),
@@ -56,14 +63,16 @@ PROPS["C14"] = dict(
         ("api_sub_undoes_add", "quick", 120, "(x+y)-y == x, (x-y)+y == x, x-x == 0, -= agrees with -; no arithmetic panic", "all pairs of 32-byte digests"),
         ("api_assoc", "quick", 400, "associativity of + and - through the API", "all triples of 32-byte digests"),
         ("digest_roundtrip", "quick", 120, "from_digest(digest(s)) == s for parsed digests, sums and differences; little-endian columns", "all pairs of 32-byte digests"),
-        ("hexdigest_roundtrip", "quick", 300, "hexdigest is 64 lower-case hex chars of digest(); from_hexdigest inverts it (formatting not stubbed)", "all 32-byte digests"),
-        ("from_hexdigest_total", "quick", 300, "from_hexdigest on every 64-char ASCII string: no panic; lower-case hex accepted and denotes its bytes", "all 64-byte ASCII strings"),
+        ("hexdigest_roundtrip_0_31", "quick", 900, "hexdigest is 64 lower-case hex chars of digest(); from_hexdigest inverts it (formatting not stubbed)", "digest bytes 0 and 31 arbitrary, the other 30 fixed"),
+        ("hexdigest_roundtrip_15_16", "thorough", 900, "same", "digest bytes 15 and 16 arbitrary, the other 30 fixed"),
+        ("from_hexdigest_total", "quick", 900, "from_hexdigest: no panic on non-hex characters; lower-case hex accepted and denotes its bytes", "characters 0, 1, 62, 63 arbitrary ASCII, the other 60 fixed hex digits"),
         ("from_hexdigest_wrong_len", "quick", 120, "strings of other lengths are rejected", "lengths 0 and 40, all ASCII contents"),
     ]),
     level_text="Bounded model checking of the compiled setsum code: each law is one SAT query over ALL 32/64/96-byte inputs (2^256..2^768 states), so column values 0, 1, p-1, p and p..2^32-1 are all covered at once; loops are fixed-size (8 columns, 32/64 bytes) and fully unrolled with unwinding assertions on, so inside the algebra the claim is complete for the functions named; SHA3 is outside the solver.",
     level_note="Trusts Kani's MIR->goto translation, CBMC and CaDiCaL; the oracle is a u64 '%' reading of the published definition with the eight primes restated in the harness; SHA3-256 is not encoded symbolically (hash_to_state is checked for all 32-byte hashes; the hash itself is anchored on concrete items).",
     design_ref="DESIGN.md 2/C14",
     pre="pre_c14",
+    native_only=[H("setsum/sha3_anchor_empty", "setsum", "verif_harness::sha3_anchor_empty::check"), H("setsum/sha3_anchor_abc", "setsum", "verif_harness::sha3_anchor_abc::check")],
     outside="collision resistance; SHA3-256 itself on symbolic input (anchored on concrete items only); non-ASCII strings passed to from_hexdigest",
     trusted=["Kani MIR->goto translation and CBMC's bit-precise semantics", "harness-side model: (a+b) mod p in u64 with the eight published primes"],
 )
@@ -78,6 +87,8 @@ def _s2(h, op, tier):
 _sk = [_s2("11", "seek_next", "quick"), _s2("21", "seek_prev", "quick"), _s2("12", "last_prev", "quick"), _s2("22", "first_prev", "quick")]
 _sk += [_s2(h, op, "thorough") for h, op in [("11","seek_prev"),("11","last_prev"),("11","first_prev"),("21","seek_next"),("21","last_prev"),("12","seek_next"),("12","seek_prev"),("22","seek_next"),("22","seek_prev"),("22","last_prev")]]
 _sk += [
+    ("s2_h11_first_prev_next", "quick", 900, "direction reversal at the front: seek_to_first, prev (off the front), next must reach the first key", _B2),
+    ("s2_h22_last_next_prev", "thorough", 900, "direction reversal at the end: seek_to_last, next (stays at the end), prev must reach the last key", _B2),
     ("s2_h11_forward", "thorough", 900, "full forward iteration of 2 keys", _B2),
     ("s2_h21_backward", "thorough", 900, "full backward iteration of 2 keys down to the head", _B2),
     ("s3_h111_member", "thorough", 900, "3 inserts; contains(q) iff inserted", "3 keys all u8, heights 1,1,1"),
@@ -121,10 +132,15 @@ _c11 = [
   + _scr("concat_0x2", "ConcatenatingCursor with an empty first child", ["snn","lpp","spn"], quick=("snn",)) \
   + _scr("concat_2x0", "ConcatenatingCursor with an empty second child", ["snn","lpp","spn"]) \
   + _scr("concat3_empty_middle", "ConcatenatingCursor over 3 children, the middle one empty", ["snn","lpp","spn"], quick=("spn",)) \
-  + _scr("prune_3", "PruningCursor at a symbolic read timestamp over 3 entries equals 'newest version <= t per key unless tombstone'", ["snn","lpp","spn","fnp","snp","sps"], quick=("snn","lpp"), cap=900, extra="; read timestamp 0..4") \
-  + _scr("prune_4", "PruningCursor over 4 entries", ["snn","lpp","spn"], cap=1800, extra="; read timestamp 0..4") \
-  + _scr("composed_ie", "Bounds[s,e)(Pruning(Merging(2x2))) equals restrict(prune(union)) - the shape of a range scan", ["snp","fnp","lpp"], quick=("snp",), cap=1800) \
-  + _scr("composed_uu", "Bounds(unbounded)(Pruning(Merging(2x2)))", ["snp","fnp","lpp"], cap=1800) \
+  + [("prune_3_s", "quick", 600, "PruningCursor at a symbolic read timestamp over 3 entries equals 'newest version <= t per key unless tombstone'; program seek", _DOMS + "; read timestamp 0..4"),
+     ("prune_3_sn", "quick", 1200, "same; program seek,next", _DOMS + "; read timestamp 0..4"),
+     ("prune_3_fnn", "thorough", 1200, "same; program seek_to_first,next,next", _DOMS + "; read timestamp 0..4"),
+     ("prune_2_lp", "thorough", 2400, "PruningCursor over 2 entries; program seek_to_last,prev (the backward path)", _DOMS + "; read timestamp 0..4", dict(unwind=3)),
+     ("prune_2_sp", "thorough", 2400, "PruningCursor over 2 entries; program seek,prev", _DOMS + "; read timestamp 0..4", dict(unwind=3)),
+     ("prune_2_lpp", "thorough", 3000, "PruningCursor over 2 entries; program seek_to_last,prev,prev", _DOMS + "; read timestamp 0..4", dict(unwind=3)),
+    ] \
+  + [("composed_ie_sn", "thorough", 2400, "Bounds[s,e)(Pruning(Merging(2x2))) equals restrict(prune(union)) - the shape of a range scan; program seek,next", _DOMS, dict(unwind=3)),
+     ("composed_uu_fnn", "thorough", 2400, "Bounds(unbounded)(Pruning(Merging(2x2))); program seek_to_first,next,next", _DOMS, dict(unwind=3))] \
   + [
     (f"bounds_3_k3_{sk}{ek}", "quick" if (sk+ek) in ("ie", "ui") else "thorough", 900, f"BoundsCursor (start {sk}, end {ek}; u=unbounded i=included e=excluded) over 3 entries equals the restriction to the interval; every 3-call program", _DOM + "; bound keys 0..4 incl. empty and inverted ranges")
     for sk in "uie" for ek in "uie"
@@ -168,7 +184,8 @@ _c16_v2 = [
     ("decode_total_1", "thorough", 200, "every parser entry on arbitrary bytes", "all 1-byte inputs"),
     ("decode_total_2", "quick", 300, "every parser entry on arbitrary bytes; accepted values re-encode to the consumed bytes", "all 2-byte inputs"),
     ("decode_total_4", "thorough", 600, "same", "all 4-byte inputs"),
-    ("decode_total_9", "quick", 900, "same (one tag + full-width payload)", "all 9-byte inputs"),
+    ("decode_total_6", "thorough", 1200, "same", "all 6-byte inputs"),
+    ("decode_ints_9", "quick", 900, "u64/i64 decoders on one tag + full-width payload: accepted values are canonical", "all 9-byte inputs"),
 ]
 _c16_v1 = [
     ("u64_fwd", "quick", 300, "field-numbered format u64 ascending: order + round trip", _FW),
@@ -178,7 +195,7 @@ _c16_v1 = [
     ("i32_fwd", "quick", 300, "i32 ascending", _FW), ("i32_rev", "thorough", 300, "i32 descending", _FW),
 ] + [
     (f"str_fwd_{a}_{b}", tier, cap, f"strings (ASCII) of lengths {a},{b} ascending: order + round trip", "all ASCII contents incl. NUL and prefixes")
-    for a, b, tier, cap in [(0,1,"quick",300),(1,1,"thorough",300),(1,2,"quick",400),(2,2,"thorough",400),(2,3,"thorough",600),(3,3,"thorough",900),(1,8,"thorough",1200),(7,8,"thorough",1800)]
+    for a, b, tier, cap in [(0,1,"quick",300),(1,1,"thorough",300),(1,2,"quick",400),(2,2,"thorough",400),(2,3,"thorough",600),(3,3,"thorough",900),(1,4,"thorough",900),(4,4,"thorough",1800),(1,7,"thorough",2400)]
 ] + [
     (f"str_rev_{a}_{b}", tier, 600, f"strings of lengths {a},{b} descending, neither a prefix of the other: reversed order + round trip", "all ASCII contents; prefix pairs excluded (known finding)")
     for a, b, tier in [(1,1,"quick"),(2,2,"thorough"),(1,2,"thorough"),(2,3,"thorough")]
@@ -195,10 +212,10 @@ _c16_v1 = [
     ("decode_total_0", "thorough", 300, "every parser entry on the empty key", "length 0"),
     ("decode_total_2", "quick", 400, "every parser entry and the element iterator on arbitrary bytes: Ok/Err, no panic; iterator partitions the key", "all 2-byte keys, both directions, field numbers 1..3"),
     ("decode_total_4", "thorough", 900, "same", "all 4-byte keys"),
-    ("decode_total_8", "thorough", 1800, "same", "all 8-byte keys"),
+    ("decode_total_6", "thorough", 1800, "same", "all 6-byte keys"),
 ]
 PROPS["C16"] = dict(
-    harnesses=hs("hx_tuple_key2", "", unwind=12, items=_c16_v2) + hs("hx_tuple_key", "", unwind=12, items=_c16_v1, stubs=["alloc::fmt::format -> empty String"]),
+    harnesses=hs("hx_tuple_key2", "", unwind=12, items=_c16_v2) + hs("hx_tuple_key", "", unwind=4, items=_c16_v1, stubs=_SERR),
     level_text="x", level_note="y",
 )
 
@@ -241,6 +258,8 @@ PROPS["C15"] = dict(
 # ---------------------------------------------------------------- C18
 GROUPS["sync42"] = Group("sync42", "incrate", package="sync42")
 _c18 = [
+    ("wait_list::verif_harness::full_blocks_s2", "quick", 900, "a link on a list whose slots are all handed out (head still linked, optionally a later slot freed) never returns: it reaches the condition-variable wait (Condvar::wait = path end)", "2 slots"),
+    ("wait_list::verif_harness::full_blocks_s3", "thorough", 900, "same, 3 slots, any later slot freed", "3 slots"),
     ("wait_list::verif_harness::proto_s3_lllUUU", "quick", 900, "wait list, 3 slots: link x3 then unlink x3 in every order: one head = lowest linked index, head handed on, head<=tail<=head+slots, internal invariant never fires", "all unlink orders, all values"),
     ("wait_list::verif_harness::proto_s2_llUlUU", "quick", 900, "2 slots: link,link,unlink(any),link,unlink(any),unlink(any): slot reuse / full list", "all choices"),
     ("wait_list::verif_harness::proto_s2_llUlIU", "thorough", 900, "2 slots with an iteration from a symbolic guard", "all choices"),
@@ -252,7 +271,7 @@ _c18 = [
 ]
 PROPS["C18"] = dict(
     harnesses=[H("sync42/" + n.split("::")[-1], "sync42", n + "::check", tier=ti, cap=c, desc=d, bound=b, unwind=4, miri=False,
-                 stubs=["std::sync::Condvar::notify_one -> no-op (reaches futex; no second thread exists to wake)"],
+                 stubs=["std::sync::Condvar::notify_one -> no-op (reaches futex; no second thread exists to wake)", "std::sync::Condvar::wait -> end of path (the thread blocks forever), in full_blocks_* only"],
                  assumes=["link is not called on a full list (the real link blocks there; single-threaded harness)"]) for n, ti, c, d, b in _c18],
     level_text="x", level_note="y",
 )
@@ -363,3 +382,54 @@ _claim("C07", "Memtable range-scan cursor (BoundsCursor<PruningCursor<skiplist i
 _claim("C19", "The bit-array substrate only: Builder/BitArray get/load/push_word, ReferenceBitVector access/rank/select/rank0/select0 after construct->serialise->parse, partition_by, for every bit pattern of the stated lengths.",
        "This is the substrate of the statement's second sentence, not the compressed index itself.", "DESIGN.md 3/C19",
        "rrr and sparse bit vectors (600 s timeouts at 8 bits), suffix array, psi, wavelet trees, documents")
+
+# ---------------------------------------------------------------- C12 (log, decomposed at the byte image)
+_LOGSTUBS = _SERR + ["sst::system_error -> empty error (its text comes from io::Error::to_string())", "crc32c::crc32c -> a cheap data-dependent checksum (the same function instantiates the template; CRC-32C itself cannot be executed by CBMC: CPU-feature dispatch)",
+                     "sst::setsum::Setsum::{put,del} -> add a constant (SHA3 is outside the solver; only 'non-empty' is used by the writer)"]
+_shapes = [  # name, D, what, tier of W/R, tier of cut family
+    ("whole_d40", "frame written whole, 40 bytes before a 1 MiB boundary", "quick", "quick"),
+    ("two_d60", "two batches (put with key[2] value[3], then a delete), both whole", "thorough", "thorough"),
+    ("exact_d22", "frame ends exactly on the boundary", "quick", "thorough"),
+    ("bound_d0", "first byte exactly on a boundary", "thorough", "thorough"),
+    ("pad_d1", "1 byte before the boundary: zero padding, then the frame", "thorough", "thorough"),
+    ("pad_d5", "5 bytes before the boundary: padding, then the frame", "quick", "thorough"),
+    ("pad_d19", "19 bytes (= HEADER_MAX_SIZE) before the boundary: the largest padding", "quick", "quick"),
+    ("split_d20", "20 bytes before the boundary: the smallest split (first frame of 1 byte), padding, second frame", "quick", "quick"),
+    ("split_d21", "21 bytes before: first frame of 2 bytes", "thorough", "thorough"),
+    ("split_d26", "26 bytes before, key[3] value[4]: first frame carries payload", "thorough", "thorough"),
+    ("exact_d25", "key[2] value[3], frame of 25 bytes ends exactly on the boundary", "thorough", "thorough"),
+    ("two_pad_d23", "a whole frame leaving 1 byte before the boundary, then a second batch after padding", "thorough", "thorough"),
+]
+_shapes += [
+    ("batch2_d60", "ONE batch of two entries, written whole", "thorough", "thorough"),
+    ("batch2_d32", "ONE batch of two entries split across the boundary so that the first frame holds the whole first entry", "quick", "thorough"),
+]
+_c12 = []
+_PAY = "payload bytes and timestamps: all values < 0x80 (1-byte varint class); lengths concrete"
+for n, what, t1, t2 in _shapes:
+    _c12 += [
+        (f"w_{n}", t1, 1200, f"W: for ALL payloads the real writer's bytes equal the natively derived template ({what})", _PAY),
+        (f"r_{n}", t1, 1800, f"R: for ALL payloads the real reader on the instantiated template yields exactly the appended entries, then end ({what})", _PAY),
+    ]
+_c12 += [
+    ("c_whole_d40", "thorough", 3000, "R-cut: on EVERY truncation length of the image the reader yields a prefix of the batches, then end or error, never a partial or invented batch (whole frame)", "all cut positions 0..len, all payloads"),
+    ("c_split_d20", "thorough", 3000, "R-cut, smallest split", "all cut positions 0..len, all payloads"),
+    ("k_whole_d40_empty", "quick", 1200, "R-cut at length 0: the empty log ends cleanly", _PAY),
+    ("k_whole_d40_first_byte", "thorough", 1200, "R-cut after the first byte", _PAY),
+    ("k_whole_d40_last_byte", "quick", 1800, "R-cut one byte before the end of the only frame: no entry, end or error", _PAY),
+    ("k_two_d60_between", "thorough", 1800, "R-cut exactly between two batches: the first batch, then end", _PAY),
+    ("k_two_d60_in_second", "quick", 1800, "R-cut inside the second batch's header: the first batch, then end or error", _PAY),
+    ("k_split_d20_at_boundary", "thorough", 1800, "R-cut at the block boundary of a split batch: nothing of it is returned", _PAY),
+    ("k_batch2_d32_at_boundary", "quick", 1800, "R-cut at the block boundary after the first half of a split TWO-entry batch: the batch is returned whole or not at all", _PAY),
+    ("k_batch2_d32_before_boundary", "thorough", 1800, "same, one byte before the boundary (inside the padding)", _PAY),
+    ("k_batch2_d32_after_boundary", "thorough", 1800, "same, one byte after the boundary (inside the second header)", _PAY),
+    ("k_batch2_d32_mid_padding", "thorough", 1800, "same, in the middle of the padding", _PAY),
+]
+PROPS["C12"] = dict(
+    harnesses=hs2("sst", "log::verif_harness::", unwind=3, stubs=_LOGSTUBS, mem=28, items=_c12),
+    needs_templates=True,
+    level_text="x", level_note="y",
+)
+_claim("C12", "The log write->read round trip is decomposed at the byte image: T (natively, every run) derives the image layout from the real writer; W (solver) shows the writer produces exactly that layout for ALL payloads; R (solver) shows the reader returns exactly the appended entries from it, and a prefix then end-or-error from every truncation. Shapes place the frame at chosen distances 0..60 from a 1 MiB boundary (whole, exact fit, padding, smallest/larger split, two batches).",
+       "W and R share the template instantiation, so their conjunction is the round trip; the checksum is a cheap stand-in function used identically on both sides (agreement on WHICH bytes are summed is still checked). Counterexamples are replayed natively against the real writer+reader with the real CRC.", "DESIGN.md 3/C12",
+       "ConcurrentLogBuilder and the coalescing queues (threads), durability/fsync, log_to_builder/truncate_final_partial_frame (open a File), batches near MAX_BATCH_SIZE, multi-byte varint classes, more than 2 batches")
